@@ -11,6 +11,7 @@ from vlib import glist, gstr
 PRE = "From Coq Require Import List String.\nFrom Syc Require Import Async.Stream.\nImport ListNotations.\nOpen Scope string_scope.\n"
 
 # view = ("text", s) | ("el", tag, [views]) | ("sus", id, [views])      fallback text is "F<id>"
+#      | ("trans", id, [views])    Transition: in the three SSR modes it must behave as a Suspense boundary (modelled as one)
 #      | ("async", gate, [views])
 
 
@@ -23,8 +24,8 @@ def sx(v):
         return "(text %s)" % hx(v[1])
     if v[0] == "el":
         return "(el %s (%s))" % (hx(v[1]), " ".join(sx(c) for c in v[2]))
-    if v[0] == "sus":
-        return "(sus ((text %s)) (%s))" % (hx("F%d" % v[1]), " ".join(sx(c) for c in v[2]))
+    if v[0] in ("sus", "trans"):
+        return "(%s ((text %s)) (%s))" % (v[0], hx("F%d" % v[1]), " ".join(sx(c) for c in v[2]))
     if v[0] == "dyn":
         return "(dyn (%s))" % " ".join(sx(c) for c in v[1])
     return "(async %d (%s))" % (v[1], " ".join(sx(c) for c in v[2]))
@@ -50,7 +51,7 @@ def cq(v):
         return "SText %s" % gstr(v[1])
     if v[0] == "el":
         return "SEl %s %s" % (gstr(v[1]), glist([cq(c) for c in v[2]]))
-    if v[0] == "sus":
+    if v[0] in ("sus", "trans"):
         return "SSus %d %s %s" % (v[1], gstr("F%d" % v[1]), glist([cq(c) for c in v[2]]))
     return "SAsync %d %s" % (v[1], glist([cq(c) for c in v[2]]))
 
@@ -70,7 +71,7 @@ def boundary_ids(v):
         return []
     if v[0] == "dyn":
         return [b for c in v[1] for b in boundary_ids(c)]
-    return ([v[1]] if v[0] == "sus" else []) + [b for c in v[2] for b in boundary_ids(c)]
+    return ([v[1]] if v[0] in ("sus", "trans") else []) + [b for c in v[2] for b in boundary_ids(c)]
 
 
 # ---- reference semantics used by the oracle (the property text, not the model) ----
@@ -93,7 +94,7 @@ def shell(v):
         return "".join(shell(c) for c in v[1])
     if v[0] == "el":
         return "<%s>%s</%s>" % (v[1], "".join(shell(c) for c in v[2]), v[1])
-    if v[0] == "sus":
+    if v[0] in ("sus", "trans"):
         return "F%d" % v[1]
     return ""
 
@@ -104,6 +105,7 @@ def shapes():
     T = lambda s: ("text", s)
     E = lambda t, *c: ("el", t, list(c))
     S = lambda i, *c: ("sus", i, list(c))
+    R = lambda i, *c: ("trans", i, list(c))
     A = lambda g, *c: ("async", g, list(c))
     D = lambda *c: ("dyn", list(c))
     return [
@@ -137,6 +139,13 @@ def shapes():
         [D(S(1, A(1, T("a")))), S(2, A(2, T("b")))],
         [S(1, A(1, T("a"))), D(S(2, A(2, T("b"))), S(3, A(3, T("c"))))],
         [D(D(S(1, A(1, T("a")))), E("p", D(S(2, A(2, D(S(3, A(3, T("c")))))))))],
+        # Transition boundaries (a Suspense around a detached suspense scope): alone, around and inside ordinary boundaries
+        [R(1, A(1, T("a")))],
+        [R(1, A(1, T("x")), S(2, A(2, T("y"))))],
+        [R(1, S(2, A(1, T("y"))))],
+        [S(1, A(1, T("a")), R(2, A(2, T("b")), S(3, A(3, T("c")))))],
+        [R(1, A(1, S(2, A(2, T("b")))))],
+        [R(1, R(2, A(1, T("b"))), A(2, T("a")))],
     ]
 
 
